@@ -3214,3 +3214,35 @@ def spec_conditional_default_explicit(fns, consts):
 
 
 SPECS["C06"].append(spec_conditional_default_explicit)
+
+
+# ------------------------------------------------------------------ C09/C08: a flag subcommand is recognised by its flag OR by any of its flag aliases
+
+def spec_flag_subcommand_aliases_to(fns, consts):
+    """Command::long_flag_aliases_to / short_flag_aliases_to (how Parser finds a flag subcommand): on every
+    return path the answer is `true` because the primary flag equals the token, or it is exactly the result
+    of `any(alias == token)` over get_all_{long,short}_flag_aliases(self) - in particular when there is NO
+    primary flag the aliases alone decide (an alias-only flag subcommand is dispatched)."""
+    con = contracts.Contracts(fns, default_pure=True)
+    ctx = symex.Ctx(consts, con)
+    obs, encs = [], []
+    for name, getter in (("long_flag_aliases_to", "get_all_long_flag_aliases"), ("short_flag_aliases_to", "get_all_short_flag_aliases")):
+        fn = _find(fns, "builder/command.rs", name)
+        ex = symex.Exec(ctx, fn, [("opq", "self"), ("opq", "flag")]).run()
+        for (pc, val), ca in zip(ex.returns, ex.return_callargs):
+            anys = [ctx.keys.get(c[2]) for c in ca if re.search(r"as Iterator>::any::<", c[0]) and c[1][0] == f"command::Command::{getter}(self)"]
+            eqs = [ctx.keys.get(c[2]) for c in ca if re.search(r"PartialEq(<.*>)?>::eq$", c[0])]
+            if val[0] == "bool" and val[1] == "true":
+                neg = f"(not (or {' '.join(eqs)} false))" if eqs else "true"
+                msg = f"{name}: `true` without consulting the aliases only when the primary flag equals the token"
+            elif val[0] == "bool" and anys and val[1] == anys[-1]:
+                neg, msg = "false", f"{name}: otherwise the aliases decide (any alias equals the token)"
+            else:
+                neg, msg = "true", f"{name}: otherwise the aliases decide (any alias equals the token) - this path returns `{val[1][:60]}` without that"
+            obs.append({"fn": fn.name, "block": "ret", "kind": "spec", "target": "flag_subcommand_aliases_to", "msg": msg, "pc": list(pc), "neg": neg})
+        encs.append(_enc(fn, ex, len(ex.returns)))
+    return ctx, obs, encs, con
+
+
+SPECS["C09"].append(spec_flag_subcommand_aliases_to)
+SPECS["C08"].append(spec_flag_subcommand_aliases_to)
